@@ -28,7 +28,7 @@ BUILT = {
          "Every pattern of the unrestricted grammar (self-referential backreferences, empty loops, \\K/\\G anywhere, conditionals) x texts mixing 1-4 byte characters x every offset x every public search entry point; oracle: returns normally, every span valid and on char boundaries, iterators end within len+2 items.",
          "catch_unwind sees every panic; hook horizons (fuel, branch-stack cap) cut looping runs so that they are reported instead of waited for.", "DESIGN.md §5 C05"),
  "C06": (E1P, "exhaustive enumeration of token sequences up to a length bound (plus fixed probes and mutations), each compiled in an isolated worker under a counting allocator",
-         "All token sequences up to length 3 (quick) / 4 (thorough, 8.6e7 strings) over a 105-token vocabulary plus depth/size probes and single-character mutations of valid patterns; oracle: Ok or Err, no panic (overflow checks on), error position <= length, heap and wall-clock under explicit caps, the process survives.",
+         "All token sequences up to length 3 (quick) / 4 (thorough, 8.6e7 strings) over a 99-token vocabulary plus depth/size probes and single-character mutations of valid patterns; oracle: Ok or Err, no panic (overflow checks on), error position <= length, heap and wall-clock under explicit caps, the process survives.",
          "'Proportional' is checked against explicit caps (64 MiB + 4 KiB per byte, 5 s), not proved. Allocation failure / native stack overflow kill a worker process; the crashing input is identified by a careful-mode re-run.", "DESIGN.md §5 C06"),
  "C07": (E1, "bounded-exhaustive enumeration of (pattern, text, offset, backtrack limit) executions with exact thresholds read through a hook",
          "Every pattern of the unrestricted space x texts x offsets x limits {0,1,2,3,5,10,100,1e6} and B-1, B, B+1 (B = backtracks of the unlimited run, hook H1): limit results are the unlimited answer or BacktrackLimitExceeded, exact at the threshold; no limit error when the reference exploration is tiny; instruction count and stack depth within a product bound.",
